@@ -87,7 +87,7 @@ theorem paused_hook_needs_not_paused (s s' : St) (t : Nat) (th : BThread) (v : B
 
 /-- **Save and load run only when the owner is quiescent**: while a save callback executes in the
 control thread no background callback is in flight — during a runtime save because the pause is
-acknowledged, during the final save because every thread has exited. -/
+acknowledged, during the final save because every thread has exited (or was never started). -/
 theorem save_callback_excludes_owner_callbacks {n mx : Nat} {s : St} (hr : Reachable n mx s)
     (h : s.ctl.pc = .svIn ∨ s.ctl.pc = .finalIn) : ∀ th ∈ s.thr, th.inCb = none := by
   intro th hth
@@ -97,7 +97,7 @@ theorem save_callback_excludes_owner_callbacks {n mx : Nat} {s : St} (hr : Reach
     have hcb := reachable_cb_pc hr th hth
     cases hin : th.inCb with
     | none => rfl
-    | some k => have := hcb (by simp [hin]); simp [hd, cbPc] at this
+    | some k => have := hcb (by simp [hin]); rcases hd with hd | hd <;> simp [hd, cbPc] at this
 
 /-- A step callback can begin only in `on_tick`, which is entered only after the shutdown event was
 read clear — never between `on_paused` and `on_resumed`, never after teardown has begun. -/
